@@ -1,5 +1,5 @@
 /-
-  C15 (vAMM part) — per-block price band.  Statements were fixed before the proofs were written.
+  C15 (vAMM part) — per-block price bandRaw.  Statements were fixed before the proofs were written.
 -/
 import Perp.Model.VammRun
 import Perp.Spec.Vamm
@@ -54,10 +54,10 @@ theorem priceBoundaries_ref (cfg : Config) (snaps : List Snapshot) (env : Env) (
 
 theorem priceBoundaries_eq_band (cfg : Config) (snaps : List Snapshot) (env : Env) (up lo : Nat)
     (h : priceBoundaries cfg snaps env = .ok (up, lo)) :
-    band cfg.decimals cfg.fluct snaps env.height = some (up, lo) := by
+    bandRaw cfg.decimals cfg.fluct snaps env.height = some (up, lo) := by
   obtain ⟨l, hl, hb⟩ := priceBoundaries_ref cfg snaps env _ h
   obtain ⟨hb, hD, hu, hlo⟩ := bounds_ok cfg l up lo hb
-  simp [band, hl, hb, hD, hu, hlo]
+  simp [bandRaw, hl, hb, hD, hu, hlo]
 
 theorem inside_iff (D : Nat) (bd : Nat × Nat) (q b : Nat) :
     inside D bd q b = true ↔ (spot D q b ≤ bd.1 ∧ bd.2 ≤ spot D q b) := by
@@ -166,7 +166,7 @@ theorem swapOutput_ok (v v' : V) (env : Env) (s : Nat) (dir : Direction) (amt li
 theorem checkFluctuation_band (v : V) (env : Env) (dir : Direction) (qa ba : Nat) (cgo : Bool)
     (hf : v.cfg.fluct ≠ 0) (h : checkFluctuation v env dir qa ba cgo = .ok ()) :
     ∃ bd, priceBoundaries v.cfg v.st.snaps env = .ok bd
-      ∧ band v.cfg.decimals v.cfg.fluct v.st.snaps env.height = some bd
+      ∧ bandRaw v.cfg.decimals v.cfg.fluct v.st.snaps env.height = some bd
       ∧ inside v.cfg.decimals bd v.st.quote v.st.base = true
       ∧ (cgo = false →
           inside v.cfg.decimals bd (postQ dir v.st.quote qa) (postB dir v.st.base ba) = true) := by
@@ -176,7 +176,7 @@ theorem checkFluctuation_band (v : V) (env : Env) (dir : Direction) (qa ba : Nat
 theorem swapInput_inside_band (v v' : V) (env : Env) (s : Nat) (dir : Direction) (amt lim : Nat)
     (o : SwapOut) (hf : v.cfg.fluct ≠ 0)
     (h : swapInput v env s dir amt lim false = .ok (v', o)) :
-    ∃ bd, band v.cfg.decimals v.cfg.fluct v.st.snaps env.height = some bd
+    ∃ bd, bandRaw v.cfg.decimals v.cfg.fluct v.st.snaps env.height = some bd
       ∧ inside v.cfg.decimals bd v.st.quote v.st.base = true
       ∧ inside v.cfg.decimals bd v'.st.quote v'.st.base = true := by
   obtain ⟨ba, hu⟩ := swapInput_ok _ _ _ _ _ _ _ _ _ h
@@ -188,7 +188,7 @@ theorem swapInput_inside_band (v v' : V) (env : Env) (s : Nat) (dir : Direction)
 
 theorem updateReserve_rejected_outside (v : V) (env : Env) (dir : Direction) (qa ba : Nat)
     (cgo : Bool) (hf : v.cfg.fluct ≠ 0) (bd : Nat × Nat)
-    (hb : band v.cfg.decimals v.cfg.fluct v.st.snaps env.height = some bd)
+    (hb : bandRaw v.cfg.decimals v.cfg.fluct v.st.snaps env.height = some bd)
     (hout : inside v.cfg.decimals bd v.st.quote v.st.base = false) (v' : V) :
     updateReserve v env dir qa ba cgo ≠ .ok v' := by
   intro hu
@@ -201,7 +201,7 @@ theorem updateReserve_rejected_outside (v : V) (env : Env) (dir : Direction) (qa
 
 theorem swapInput_rejected_outside (v : V) (env : Env) (s : Nat) (dir : Direction) (amt lim : Nat)
     (cgo : Bool) (hf : v.cfg.fluct ≠ 0) (bd : Nat × Nat)
-    (hb : band v.cfg.decimals v.cfg.fluct v.st.snaps env.height = some bd)
+    (hb : bandRaw v.cfg.decimals v.cfg.fluct v.st.snaps env.height = some bd)
     (hout : inside v.cfg.decimals bd v.st.quote v.st.base = false) :
     ∃ e, swapInput v env s dir amt lim cgo = .error e := by
   rcases except_cases (swapInput v env s dir amt lim cgo) with h | ⟨⟨v', o⟩, h⟩
@@ -212,7 +212,7 @@ theorem swapInput_rejected_outside (v : V) (env : Env) (s : Nat) (dir : Directio
 
 theorem swapOutput_rejected_outside (v : V) (env : Env) (s : Nat) (dir : Direction) (amt lim : Nat)
     (hf : v.cfg.fluct ≠ 0) (bd : Nat × Nat)
-    (hb : band v.cfg.decimals v.cfg.fluct v.st.snaps env.height = some bd)
+    (hb : bandRaw v.cfg.decimals v.cfg.fluct v.st.snaps env.height = some bd)
     (hout : inside v.cfg.decimals bd v.st.quote v.st.base = false) :
     ∃ e, swapOutput v env s dir amt lim = .error e := by
   rcases except_cases (swapOutput v env s dir amt lim) with h | ⟨⟨v', o⟩, h⟩
@@ -224,7 +224,7 @@ theorem swapOutput_rejected_outside (v : V) (env : Env) (s : Nat) (dir : Directi
 theorem swapOutput_started_inside (v v' : V) (env : Env) (s : Nat) (dir : Direction) (amt lim : Nat)
     (o : SwapOut) (hf : v.cfg.fluct ≠ 0)
     (h : swapOutput v env s dir amt lim = .ok (v', o)) :
-    ∃ bd, band v.cfg.decimals v.cfg.fluct v.st.snaps env.height = some bd
+    ∃ bd, bandRaw v.cfg.decimals v.cfg.fluct v.st.snaps env.height = some bd
       ∧ inside v.cfg.decimals bd v.st.quote v.st.base = true := by
   obtain ⟨qa, _, hu⟩ := swapOutput_ok _ _ _ _ _ _ _ _ h
   obtain ⟨hc, _, _⟩ := updateReserve_ok _ _ _ _ _ _ _ hu
@@ -235,7 +235,7 @@ theorem isOverFluctuation_spec (v v' : V) (env : Env) (s : Nat) (dir : Direction
     (o : SwapOut) (hf : v.cfg.fluct ≠ 0)
     (hq : queryIsOverFluctuationLimit v env dir amt = .ok r)
     (hs : swapOutput v env s dir amt 0 = .ok (v', o)) :
-    ∃ bd, band v.cfg.decimals v.cfg.fluct v.st.snaps env.height = some bd
+    ∃ bd, bandRaw v.cfg.decimals v.cfg.fluct v.st.snaps env.height = some bd
       ∧ r = !(inside v.cfg.decimals bd v'.st.quote v'.st.base) := by
   obtain ⟨qa, hqa, hu⟩ := swapOutput_ok _ _ _ _ _ _ _ _ hs
   obtain ⟨hc, hq', hb'⟩ := updateReserve_ok _ _ _ _ _ _ _ hu
@@ -253,5 +253,33 @@ theorem isOverFluctuation_spec (v v' : V) (env : Env) (s : Nat) (dir : Direction
 theorem isOverFluctuation_zero_limit (v : V) (env : Env) (dir : Direction) (amt : Nat)
     (hf : v.cfg.fluct = 0) : queryIsOverFluctuationLimit v env dir amt = .ok false := by
   simp [queryIsOverFluctuationLimit, hf]
+
+/-- where the property's band is defined (reference snapshot from an earlier block) it is the band the
+    contract computes; in the instantiation block the property's band is undefined -/
+theorem band_some_raw (D f : Nat) (snaps : List Snapshot) (height : Nat) (bd : Nat × Nat)
+    (h : Perp.Spec.C15.band D f snaps height = some bd) : bandRaw D f snaps height = some bd := by
+  unfold Perp.Spec.C15.band at h
+  unfold bandRaw
+  split at h
+  · cases h
+  · rename_i s hs
+    split at h
+    · cases h
+    · rename_i hc
+      have hc' : ¬ (s.base = 0 ∨ D = 0) := fun hh => hc (by rcases hh with a | b; exact Or.inl a; exact Or.inr (Or.inl b))
+      rw [if_neg hc']
+      exact h
+
+theorem band_defined_iff_earlier (D f : Nat) (snaps : List Snapshot) (height : Nat) (bd : Nat × Nat)
+    (h : Perp.Spec.C15.band D f snaps height = some bd) :
+    ∃ s, refSnapshot snaps height = some s ∧ s.height < height := by
+  unfold Perp.Spec.C15.band at h
+  split at h
+  · cases h
+  · rename_i s hs
+    split at h
+    · cases h
+    · rename_i hc
+      exact ⟨s, hs, by omega⟩
 
 end Perp.Props.C15
